@@ -34,7 +34,7 @@ def run(ctx):
                        "targets; thorough: larger) plus random archives <=10 entries; an entry refused on its name is offered "
                        "with the 3 most harmful bodies. non-trivial = at least 2 headers consumed and the file system changed "
                        "at least twice")
-    ctx.tlc_mc(S, "MCTarFS.tla", "MCTarFS.cfg", timeout=6000, coverage=not ctx.quick, deadlock=False)
+    ctx.tlc_mc(S, "MCTarFS.tla", "MCTarFS.cfg" if ctx.quick else "MCTarFSBig.cfg", timeout=6000, coverage=not ctx.quick, deadlock=False)
     ctl = ctx.tlc_mc(S, "MCTarFS.tla", "MCTarFSAsBuilt.cfg", timeout=900, deadlock=False, expect_violation=True)
     if ctl["violated"] != "Confined":
         ctx.broken("non-vacuity control: the as-built deferred update should violate Confined in the model, got %s" % ctl["violated"])
@@ -42,7 +42,7 @@ def run(ctx):
     sets = [("two", ctx.tlc_gen(S, "GenTarFS.tla", "GenTarFS.cfg", timeout=3000, workers=4)),
             ("three", ctx.tlc_gen(S, "GenTarFS.tla", "GenTarFS3.cfg" if ctx.quick else "GenTarFS3Big.cfg", timeout=6000,
                                   workers=4 if ctx.quick else 8))]
-    nsim = 60 if ctx.quick else 3000
+    nsim = 30 if ctx.quick else 600
     sets.append(("sim", ctx.tlc_gen(S, "GenTarFS.tla", "GenTarFSSim.cfg", simulate=nsim, depth=12 * 10 + 1, timeout=3000)))
     binp = ctx.go_build("tar", ["tar/zz_verif_C38_test.go"])
 
@@ -69,7 +69,8 @@ def replay(ctx, binp, name, behs, nontrivial):
         ctx.broken("replay driver %s died or was incomplete (rc=%s, %d/%d results): %s" % (name, rc, len(got), len(behs), out[-1500:]))
         return False
     bad = [r for r in recs if r.get("ok") is False]
-    bad.sort(key=lambda r: (0 if "OUTSIDE" in r.get("what", "") else 1, r["i"]))
+    bad.sort(key=lambda r: (0 if r.get("escape") else 1, r["i"]))
+    nconf = 0
     for r in bad:
         beh = behs[r["i"]]
         arch = " ; ".join("%s %s%s mode=%o mtime=%s" % ("/".join(e["name"]), e["type"], ("->" + e["link"]) if e["link"] else "",
@@ -79,8 +80,15 @@ def replay(ctx, binp, name, behs, nontrivial):
             ctx.broken(what)
         elif r.get("dev"):
             ctx.deviation(r["dev"], what, dict(behaviour=beh, disagreement=r))
-        else:
+        elif r.get("escape"):
             ctx.violation(what, dict(behaviour=beh, disagreement=r))
+        else:
+            # the tree below the target or the error class differs from the model but nothing outside the target
+            # changed: the property holds on this behaviour; what is lost is the model's conformance to the code
+            nconf += 1
+            if nconf == 1:
+                ctx.save_text("conformance_%s.json" % name, dict(behaviour=beh, disagreement=r))
+                ctx.broken("extractor no longer conforms to the TarFS model inside the target (nothing outside changed): " + what)
     ctx.cov["traces_validated_against_impl"] += len(behs)
     ctx.cov["evaluations"] += len(behs)
     for b in behs:
